@@ -60,6 +60,12 @@ def r21(facts, res):
                 r = addr[1]
                 if r[0] == 'call' and r[1].endswith('::index_mut'):
                     none_stores.append(r[2][1])
+        # `closed_states[k].take()` leaves None behind as well (and says whether there was a closed form)
+        for e in p.calls(name='take'):
+            if 'core::option::Option' in (e[2].get('self_ty') or e[2]['path']) and e[3]:
+                r = strip_ref(e[3][0])
+                if r[0] == 'call' and r[1].endswith('::index_mut'):
+                    none_stores.append(r[2][1])
         incs = [(k, v) for k, v in p.env.items() if isinstance(k[0], int) and not k[1] and b.name_of(k[0]) and isinstance(v, tuple)
                 and v[0] == 'bin' and v[1] == 'Add' and v[3] == ('const', 1) and v[2] == ('uninit', k[0])]
         if some == [0]:
@@ -384,6 +390,13 @@ def r27(facts, res):
             if not ok_some:
                 continue
             r, projs, via = b.root(st['lhs']['l'], through=('index_mut',), stop_named=False)
+            if 'core::option::Option<lrtable::itemset::Itemset' in b.lty(r) and b.lty(r).startswith('alloc::vec::Vec<'):
+                stores.append(bb)
+    # the same store through the Option API: closed_states[i].insert(closed) / .replace(closed)
+    for bb, t in b.calls(blocks=loops[main]):
+        c = callee_of(t)
+        if c and c['name'] in ('insert', 'replace') and (c.get('self_ty') or '').startswith('core::option::Option<lrtable::itemset::Itemset') and t['args']:
+            r, projs, via = b.op_root(t['args'][0], through=('index_mut',), stop_named=False)
             if 'core::option::Option<lrtable::itemset::Itemset' in b.lty(r) and b.lty(r).startswith('alloc::vec::Vec<'):
                 stores.append(bb)
     if not stores:
